@@ -58,6 +58,13 @@ class Flow:
         if isinstance(e, ast.IfExp):
             a, b = self.kind(e.body, st), self.kind(e.orelse, st)
             return BASE if BASE in (a, b) else a or b
+        if isinstance(e, ast.Attribute):
+            k = self.kind(e.value, st)
+            return k if k in (BASE, OWN) else None
+        # assignment expressions buried in a test
+        for sub in ast.iter_child_nodes(e):
+            if isinstance(sub, ast.expr):
+                self.kind(sub, st)
         return None
 
     def elem_kind(self, it, st):
@@ -88,7 +95,12 @@ class Flow:
                     self.bind(t, k, st)
             elif isinstance(s, ast.Expr):
                 self.calls(s.value, st)
-                self.kind(s.value, st)
+                k = self.kind(s.value, st)
+                c = s.value
+                if isinstance(c, ast.Call) and isinstance(c.func, ast.Attribute) and c.func.attr in ("append", "extend", "add") and isinstance(c.func.value, ast.Name) and c.args:
+                    ek = self.kind(c.args[0], st)
+                    if ek == BASE or st.get(c.func.value.id) is None:
+                        st[c.func.value.id] = ek if st.get(c.func.value.id) != BASE else BASE
             elif isinstance(s, ast.If):
                 self.kind(s.test, st)
                 a, b = dict(st), dict(st)
